@@ -123,14 +123,15 @@ static void nilAt(Val& v, int& idx) { if (idx == 0) { v = Val::nil(); idx = -1; 
 
 static void body(bsx::Ctx& c) {
 	const bool thorough = c.tier == "thorough";
-	int scen = c.choose(4, "scenario");
+	int scen = c.choose(5, "scenario");
 	if (scen == 0) {
 		// --- A: every encoding of every scalar alphabet value into every scalar target at 3 positions
 		int vi = c.choose(static_cast<int>(gVals.size()), "value");
 		int ti = c.choose(static_cast<int>(sizeof(gTargets) / sizeof(gTargets[0])), "target");
 		int pos = c.choose(3, "position");
 		const auto& nv = gVals[static_cast<size_t>(vi)];
-		ref::mp::Picker pick = [&](int n, const char* what) { return c.choose(n, what); };
+		bool firstPick = true;   // all format alternatives of the value itself; nested values stay canonical (composites: scenario B)
+		ref::mp::Picker pick = [&](int n, const char* what) { if (!firstPick) return 0; firstPick = false; return c.choose(n, what); };
 		Val doc; Node shape;
 		Node tgt = Node::mk(gTargets[ti]);
 		if (pos == 0) { doc = nv.v; shape = tgt; }
@@ -156,6 +157,27 @@ static void body(bsx::Ctx& c) {
 			if (err == ref::mp::Err::Ok) doc = back; else { c.violation(sigbase + "/out=ref_selfcheck", "reference encoder/decoder disagree"); return; }
 		}
 		c.nontrivial(sigbase); if (vi == 5 && ti == 4) c.sample(sigbase + " bytes=" + bsx::hex(bytes));
+		judge(c, sigbase, &doc, ref::mp::Err::Ok, bytes, shape);
+	} else if (scen == 4) {
+		// --- E: a member the target never requests, in every encoding of every alphabet value, must be passed over:
+		// {a:1, x:V, b:2} into {a,b} requested in document order and in reversed order (both readers)
+		int vi = c.choose(static_cast<int>(gVals.size()), "value");
+		int order = c.choose(2, "order");
+		int pos = c.choose(3, "xpos");   // where the unrequested member sits: first, middle, last
+		const auto& nv = gVals[static_cast<size_t>(vi)];
+		bool firstPick = true;   // all format alternatives of the value itself; nested values stay canonical (composites: scenario B)
+		ref::mp::Picker pick = [&](int n, const char* what) { if (!firstPick) return 0; firstPick = false; return c.choose(n, what); };
+		std::string inner = ref::mp::encode(nv.v, pick);
+		unsigned fb = static_cast<unsigned char>(inner[0]);
+		if (fb <= 0x7f) fb = 0x00; else if (fb <= 0x8f) fb = 0x80; else if (fb <= 0x9f) fb = 0x90; else if (fb <= 0xbf) fb = 0xa0; else if (fb >= 0xe0) fb = 0xe0;
+		std::string A = std::string("\xa1" "a\x01"), B = std::string("\xa1" "b\x02"), X = std::string("\xa1" "x") + inner;
+		std::string bytes = "\x83" + (pos == 0 ? X + A + B : pos == 1 ? A + X + B : A + B + X);
+		Val doc; if (refDecode(bytes, doc) != ref::mp::Err::Ok) { c.violation("C07/unrequested/out=ref_selfcheck", "reference decoder rejects reference encoding"); return; }
+		Node shape = order ? Node::obj({{"b", Node::mk(I32)}, {"a", Node::mk(I32)}}) : Node::obj({{"a", Node::mk(I32)}, {"b", Node::mk(I32)}});
+		static const char* posn2[] = {"first", "middle", "last"};
+		std::string sigbase = std::string("C07/unrequested/xpos=") + posn2[pos] + "/order=" + (order ? "reversed" : "document") + "/src=" + nv.name + "/enc=" + bsx::fmt("%02x", fb);
+		c.describe(sigbase, "bytes=" + (bytes.size() < 80 ? bsx::hex(bytes) : bsx::hex(bytes.substr(0, 60)) + "..."));
+		c.nontrivial(sigbase);
 		judge(c, sigbase, &doc, ref::mp::Err::Ok, bytes, shape);
 	} else if (scen == 1) {
 		// --- B: composite corpus: key orders, nil substitution, <= max_dev non-canonical widths
